@@ -114,7 +114,7 @@ def render(rng, items, variables):
                 s = f"{pending}:{rng.choice([' ', '', '  '])}{s}"
                 pending = None
             if rng.random() < 0.2:
-                s += rng.choice(["  # comment", " #x: .word 5", "#"])
+                s += rng.choice(["  # comment", " #x: .word 5", "#", " # größer ≥ 5 ✓", " # a # b"])
             text_lines.append(ind + s)
     if pending:
         text_lines.append(pending + ":")
@@ -125,7 +125,7 @@ def render(rng, items, variables):
         out = []
         for l in ls:
             if rng.random() < 0.15:
-                out.append(rng.choice(["", "   ", "# a comment line", "\t# another"]))
+                out.append(rng.choice(["", "   ", "# a comment line", "\t# another", "# Ümläute ✓", "#"]))
             out.append(l)
         return out
     text_lines, data_lines = sprinkle(text_lines), sprinkle(data_lines)
